@@ -66,6 +66,8 @@ def run(ctx, chk, tier="quick"):
                        "identifier suffixes state the units the author intends (_mm, _km_d, _m2_d)"]
     from ..memo import memo_keys
     memo_keys(ctx, chk, "C15.O1", ("transmissivity", "spline"), "transmissivity")
+    from ..perm import sorted_values_regathered
+    sorted_values_regathered(ctx, chk, "C15.O3", ('transmissivity', 'spline'), "transmissivity")
     mod = ctx.repo.module("transmissivity")
     cs = ctx.func("transmissivity.SplineTransmissivity.call_scalar")
     w = cs.params[1]
